@@ -50,10 +50,16 @@ pub enum Ext {
     MpTotal,
     MpMemory,
     Mp2Total,
+    /// a repeatable field with a field-level limit, sent as two adjacent parts `f, f`
+    MpRepAdjacent,
+    /// ... as `f, g, f` (another field's part in between)
+    MpRepInterleaved,
+    /// ... as `f, g, f, g, f`
+    MpRepInterleaved3,
 }
 
 impl Ext {
-    const ALL: [Ext; 12] = [
+    const ALL: [Ext; 15] = [
         Ext::Bytes,
         Ext::String,
         Ext::Json,
@@ -66,6 +72,9 @@ impl Ext {
         Ext::MpTotal,
         Ext::MpMemory,
         Ext::Mp2Total,
+        Ext::MpRepAdjacent,
+        Ext::MpRepInterleaved,
+        Ext::MpRepInterleaved3,
     ];
     fn name(self) -> &'static str {
         match self {
@@ -81,13 +90,27 @@ impl Ext {
             Ext::MpTotal => "multipart-total-limit",
             Ext::MpMemory => "multipart-memory-limit",
             Ext::Mp2Total => "multipart-2fields-total-limit",
+            Ext::MpRepAdjacent => "multipart-repeated-field-limit-adjacent",
+            Ext::MpRepInterleaved => "multipart-repeated-field-limit-interleaved",
+            Ext::MpRepInterleaved3 => "multipart-repeated-field-limit-interleaved3",
         }
     }
     fn is_mp(self) -> bool {
         matches!(
             self,
-            Ext::MpTextField | Ext::MpBytesField | Ext::MpTotal | Ext::MpMemory | Ext::Mp2Total
+            Ext::MpTextField
+                | Ext::MpBytesField
+                | Ext::MpTotal
+                | Ext::MpMemory
+                | Ext::Mp2Total
+                | Ext::MpRepAdjacent
+                | Ext::MpRepInterleaved
+                | Ext::MpRepInterleaved3
         )
+    }
+    /// the limited field `f` arrives in several parts
+    fn is_mp_repeated(self) -> bool {
+        matches!(self, Ext::MpRepAdjacent | Ext::MpRepInterleaved | Ext::MpRepInterleaved3)
     }
     /// does the extractor wrap the payload in `Decompress` itself?
     fn decompresses(self) -> bool {
@@ -179,6 +202,25 @@ fn build(case: &Case12) -> Built {
     let fields: Vec<(&str, &[u8])> = if case.ext == Ext::Mp2Total {
         let a = case.len.div_ceil(2);
         vec![("f", &body[..a]), ("g", &body[a..])]
+    } else if case.ext.is_mp_repeated() {
+        // the `len` bytes of the limited field are spread over its parts as evenly as possible
+        // (so with len = limit + 1 every part alone is within the limit); `g` parts carry "n"
+        let k = if case.ext == Ext::MpRepInterleaved3 { 3 } else { 2 };
+        let mut parts: Vec<&[u8]> = vec![];
+        let mut from = 0;
+        for i in 0..k {
+            let to = from + (case.len - from).div_ceil(k - i);
+            parts.push(&body[from..to]);
+            from = to;
+        }
+        let mut v: Vec<(&str, &[u8])> = vec![];
+        for (i, p) in parts.into_iter().enumerate() {
+            if i > 0 && case.ext != Ext::MpRepAdjacent {
+                v.push(("g", &b"n"[..]));
+            }
+            v.push(("f", p));
+        }
+        v
     } else {
         vec![("f", &body[..])]
     };
@@ -188,10 +230,13 @@ fn build(case: &Case12) -> Built {
         w.extend_from_slice(
             format!("content-disposition: form-data; name=\"{name}\"\r\n\r\n").as_bytes(),
         );
-        if cross.is_none() && consumed + data.len() > case.limit {
+        let counted = !(case.ext.is_mp_repeated() && *name == "g");
+        if counted && cross.is_none() && consumed + data.len() > case.limit {
             cross = Some(w.len() + (case.limit - consumed));
         }
-        consumed += data.len();
+        if counted {
+            consumed += data.len();
+        }
         w.extend_from_slice(data);
         w.extend_from_slice(b"\r\n");
     }
@@ -256,6 +301,38 @@ mp_limited! {
     "100B", 100 => MpT100, MpB100;
     "1000B", 1000 => MpT1000, MpB1000;
     "4096B", 4096 => MpT4096, MpB4096;
+}
+
+macro_rules! mp_repeated {
+    ($($lim:literal, $n:literal => $ty:ident;)*) => {
+        $(
+            #[derive(MultipartForm)]
+            struct $ty { #[multipart(limit = $lim)] f: Vec<MpBytes>, #[allow(dead_code)] g: Vec<Text<String>> }
+            impl MpGet for $ty { fn data(self) -> Vec<u8> { self.f.iter().flat_map(|p| p.data.to_vec()).collect() } }
+        )*
+        async fn mp_repeated_field(limit: usize, req: &HttpRequest, pl: &mut dev::Payload) -> Result<Vec<u8>, actix_web::Error> {
+            match limit {
+                $( $n => mp_run::<$ty>(req, pl).await, )*
+                _ => mc_core::machinery(format!("no repeated-field multipart form type for field limit {limit}")),
+            }
+        }
+    };
+}
+
+mp_repeated! {
+    "0B", 0 => MpR0;
+    "1B", 1 => MpR1;
+    "2B", 2 => MpR2;
+    "3B", 3 => MpR3;
+    "8B", 8 => MpR8;
+    "4B", 4 => MpR4;
+    "5B", 5 => MpR5;
+    "10B", 10 => MpR10;
+    "16B", 16 => MpR16;
+    "64B", 64 => MpR64;
+    "100B", 100 => MpR100;
+    "1000B", 1000 => MpR1000;
+    "4096B", 4096 => MpR4096;
 }
 
 #[derive(MultipartForm)]
@@ -490,6 +567,12 @@ async fn extract(case: &Case12, req: &HttpRequest, pl: &mut dev::Payload, want: 
             Ok(b) => ok_outcome(&b, want),
             Err(e) => classify_web_error(&e),
         },
+        Ext::MpRepAdjacent | Ext::MpRepInterleaved | Ext::MpRepInterleaved3 => {
+            match mp_repeated_field(case.limit, req, pl).await {
+                Ok(b) => ok_outcome(&b, want),
+                Err(e) => classify_web_error(&e),
+            }
+        }
         Ext::Mp2Total => match mp_run::<Mp2Free>(req, pl).await {
             Ok(b) => ok_outcome(&b, want),
             Err(e) => classify_web_error(&e),
@@ -866,7 +949,7 @@ fn mp_chunkings(case: &Case12, built: &Built, full_upto: usize, ones_upto: usize
     let head = format!("--{MP_BOUNDARY}\r\ncontent-disposition: form-data; name=\"f\"\r\n\r\n").len();
     let b = (head + case.limit).min(n);
     let mut out = chunkings(n, b, 0, ones_upto);
-    if case.ext != Ext::Mp2Total && case.len >= 1 && case.len <= full_upto {
+    if case.ext != Ext::Mp2Total && !case.ext.is_mp_repeated() && case.len >= 1 && case.len <= full_upto {
         for mask in 0..(1u64 << (case.len - 1)) {
             let mut cuts = vec![head];
             cuts.extend((1..case.len).filter(|i| mask >> (i - 1) & 1 == 1).map(|i| head + i));
@@ -888,7 +971,7 @@ pub fn enumerate(tier: &str) -> Vec<Case12> {
     let mut cases = Vec::new();
     for ext in Ext::ALL {
         for &limit in limits {
-            if matches!(ext, Ext::MpTextField | Ext::MpBytesField) && !MP_FIELD_LIMITS.contains(&limit) {
+            if (matches!(ext, Ext::MpTextField | Ext::MpBytesField) || ext.is_mp_repeated()) && !MP_FIELD_LIMITS.contains(&limit) {
                 continue;
             }
             for len in lens_for(limit) {
